@@ -733,6 +733,20 @@ impl Oracle {
                     );
                 }
                 if cp.client_id != self.client_id {
+                    if c > 0 {
+                        // (C12: nothing a refused or broken earlier connection said may show in a later CONNECT)
+                        self.flag(
+                            "C12",
+                            "R3-connect-differs-from-first",
+                            "client-identifier",
+                            format!(
+                                "CONNECT on connection {} carries client id {:?}; configured / legitimately assigned is {:?}",
+                                c,
+                                String::from_utf8_lossy(&cp.client_id),
+                                String::from_utf8_lossy(&self.client_id)
+                            ),
+                        );
+                    }
                     self.flag(
                         "C05",
                         "S2-client-id",
@@ -1316,6 +1330,8 @@ impl Oracle {
                 if *reason == 0 {
                     let mut rm = 65535u32;
                     let mut bad = false;
+                    // (an identifier assigned by a CONNACK that the client has to refuse is not taken over)
+                    let mut new_id: Option<Vec<u8>> = None;
                     for p in props {
                         match (&p.id, &p.val) {
                             (0x21, mr::PVal::U16(v)) => {
@@ -1327,7 +1343,7 @@ impl Oracle {
                             (0x27, mr::PVal::U32(v)) => self.conns[c].max_packet = Some(*v),
                             (0x12, mr::PVal::Str(s)) => {
                                 if s.len() <= 64 {
-                                    self.client_id = s.clone();
+                                    new_id = Some(s.clone());
                                 } else {
                                     bad = true;
                                 }
@@ -1338,6 +1354,11 @@ impl Oracle {
                                 }
                             }
                             _ => {}
+                        }
+                    }
+                    if !bad {
+                        if let Some(id) = new_id {
+                            self.client_id = id;
                         }
                     }
                     self.conns[c].receive_max = rm;
